@@ -121,7 +121,14 @@ def reference(num, T, u, r):
         gn = gnielinski_np(re, pr)
         nu = np.where(re < num["laminar_cutoff"], num["laminar_value"], gn)
         film = np.maximum(nu * np.polyval(num["k"], T) / (2.0 * r), num["film_min"])
-    return {"teff": te, "re": re, "pr": pr, "gn": gn, "nu": nu, "film": film,
+        # a property counts as (numerically) positive when it is not the result of a cancellation:
+        # p(T) > 1e-6 * sum |c_i| |T|^i  (otherwise its last digits depend on a*b+c contraction)
+        wellpos = np.ones(np.shape(te), bool)
+        wellcond = np.ones(np.shape(te), bool)
+        for nm, val in (("rho", rho), ("mu", mu), ("k", k), ("cp", cp)):
+            wellpos &= val > 1e-6 * np.polyval(np.abs(num[nm]), np.abs(te))
+            wellcond &= np.abs(val) > 1e-6 * np.polyval(np.abs(num[nm]), np.abs(te))
+    return {"teff": te, "re": re, "pr": pr, "gn": gn, "nu": nu, "film": film, "wellpos": wellpos, "wellcond": wellcond,
             "rho_e": rho, "mu_e": mu, "k_e": k, "cp_e": cp, "k_raw": np.polyval(num["k"], T)}
 
 
@@ -143,7 +150,7 @@ def predicate_point(num, real, ref, i, T, u, r, shipped=False):
     g = lambda d, k: float(d[k][i])
     cut, lam, fmin = num["laminar_cutoff"], num["laminar_value"], num["film_min"]
     film, nu, re, pr = g(real, "film"), g(real, "nu"), g(real, "re"), g(real, "pr")
-    physical = all(g(ref, k) > 0 for k in ("rho_e", "mu_e", "k_e", "cp_e")) and math.isfinite(g(ref, "k_raw"))
+    physical = bool(ref["wellpos"][i]) and math.isfinite(g(ref, "k_raw"))
     if shipped and not physical:
         bad.append("shipped fluid: a property is not positive at the clipped temperature %r: cp=%r rho=%r mu=%r k=%r" % (
             g(ref, "teff"), g(ref, "cp_e"), g(ref, "rho_e"), g(ref, "mu_e"), g(ref, "k_e")))
@@ -307,7 +314,7 @@ def monotone_sweeps(ctx, rng, specs, nper, npts):
                 T = rng.choice([num["T_min"] - 50.0, num["T_max"] + 50.0])
             r = 10 ** rng.uniform(-1, 2)
             ref0 = reference(num, [T], [1.0], [r])
-            if not all(ref0[k][0] > 0 for k in ("rho_e", "mu_e", "k_e", "cp_e")) or not ref0["pr"][0] >= 0.7 \
+            if not ref0["wellpos"][0] or not ref0["pr"][0] >= 0.7 \
                     or not ref0["k_raw"][0] >= 0:
                 continue
             ucut = num["laminar_cutoff"] * ref0["mu_e"][0] / (ref0["rho_e"][0] * 2.0 * r) * (1 + 1e-9)
@@ -406,7 +413,7 @@ def run(ctx):
     ans_full, ans_nu = answers[:len(lines)], answers[len(lines):]
 
     names = ["teff", "re", "pr", "nu", "film", "cp", "rho", "mu", "k"]
-    mism, pred_bad, ambiguous = [], [], 0
+    mism, pred_bad, ambiguous, illcond = [], [], 0, 0
     for i, (si, T, u, r) in enumerate(cases):
         mat, num, spec = mats[si]
         real, ref, j = results[i]
@@ -426,11 +433,28 @@ def run(ctx):
             same_side = (mv["re"] < cut) == (re_real < cut)
             if not same_side:
                 ambiguous += 1
+            # polynomial values: 1e-10 relative to the size of the terms (a value produced by
+            # cancellation carries the rounding of its terms); derived quantities are compared when the
+            # four properties at the clipped temperature are not such cancellations
+            te_j = float(ref["teff"][j])
+            kraw_ok = abs(float(ref["k_raw"][j])) > 1e-6 * float(np.polyval(np.abs(num["k"]), abs(T)))
             for nm in names:
                 if nm in ("nu", "film") and not same_side:
                     continue  # rounding put the two Reynolds numbers on different sides; see `nusseltOf` check
-                if not rel_close(float(real[nm][j]), mv[nm], REL):
-                    mism.append((i, nm, float(real[nm][j]), mv[nm]))
+                a, bm = float(real[nm][j]), mv[nm]
+                if nm in ("cp", "rho", "mu", "k"):
+                    x = te_j if nm == "rho" else T
+                    scale = float(np.polyval(np.abs(num[nm]), abs(x)))
+                    if not (rel_close(a, bm, REL) or abs(a - bm) <= REL * scale):
+                        mism.append((i, nm, a, bm))
+                elif nm == "teff":
+                    if a != bm:
+                        mism.append((i, nm, a, bm))
+                elif bool(ref["wellcond"][j]) and (nm != "film" or kraw_ok):
+                    if not rel_close(a, bm, REL):
+                        mism.append((i, nm, a, bm))
+                else:
+                    illcond += 1
             nu_model = common.bits2f(ans_nu[i])
             if not rel_close(float(real["nu"][j]), nu_model, REL):
                 mism.append((i, "nusseltOf(re,pr of the code)", float(real["nu"][j]), nu_model))
@@ -443,6 +467,7 @@ def run(ctx):
         if pb:
             pred_bad.append((i, pb))
     ctx.extra["branch_ambiguous_cases"] = ambiguous
+    ctx.extra["derived_quantities_skipped_ill_conditioned"] = illcond
     ctx.obligation("correspondence: T_effective/reynolds/prandtl/nusselt/film_coefficient/cp/rho/mu/k real (jax float64) "
                    "== model on Float (rel 1e-10)", not mism,
                    "%d mismatches of %d cases; first: %s" % (len(mism), len(cases), mism[:2]))
